@@ -241,7 +241,7 @@ def check_input_forms(text, acc, api, start, case):
             return
 
 
-def check_text(text, acc, api, start=1, must_reject=False, reject_or_account=False, kind='soup', expect_col=None):
+def check_text(text, acc, api, start=1, must_reject=False, reject_or_account=False, kind='soup', expect_col=None, must_accept=False):
     """Run the real parser on text under the full oracle. Returns the exception or model."""
     parse_script, perr = api
     case = {'text': text, 'start': start, 'must_reject': must_reject, 'kind': kind}
@@ -254,6 +254,10 @@ def check_text(text, acc, api, start=1, must_reject=False, reject_or_account=Fal
         model = parse_script(text, start)
     except perr as exc:
         acc.count('rejected')
+        if must_accept:
+            # a diagnostic for a text in which nothing is at fault points at no offending source at all
+            acc.violation('valid-text-rejected', f'{exc.error!r} at line {exc.line_number} ({exc.line!r:.120}) for a generated VALID program\ntext={text!r:.900}', case)
+            return exc
         for p in position_problems(exc, text, start):
             acc.violation('diagnostic-position', f'{p}\nerror={exc.error!r} line_number={exc.line_number} column={exc.column_number} line={exc.line!r:.300}\ntext={text!r:.600}', case)
             return exc
@@ -492,10 +496,22 @@ def run_texts(spec, acc, api):
                 lines_t = text.split('\n')
                 pos = rnd.choice([0, len(lines_t)])
                 text = '\n'.join(lines_t[:pos] + block + lines_t[pos:])
+            if rnd.random() < 0.2:
+                # the whole program inside an open global loop, after a function defined in that loop: the rest of the block (its
+                # break / continue / else / closing keywords) still belongs to the loop
+                head = rnd.choice([['wq = 0', 'while wq < 1:', '    wq = wq + 1'], ['for wq in arrayNew(1):'], ['wq = 1', 'if wq:']])
+                closer = {'while': 'endwhile', 'for w': 'endfor', 'if wq': 'endif'}[head[-1][:5] if head[-1].startswith(('for', 'if')) else 'while']
+                inner = ['    function fq(aa):', '        mk9001 = aa', '        if aa:', '            return 1', '        endif', '    endfunction']
+                tail = ['    if wq > 5:', '        mk9002 = 1', '    elif wq > 4:', '        mk9003 = 1', '    else:', '        mk9004 = 1', '    endif']
+                if not head[-1].startswith('if'):
+                    tail += ['    if wq > 7:', '        ' + rnd.choice(['break', 'continue']), '    endif']
+                body = ['    ' + ln for ln in text.split('\n')]
+                text = '\n'.join(head + inner + tail + body + [closer])
+                acc.count('programs_after_a_function_in_an_open_block')
             if rnd.random() < 0.4:
                 text = with_layout_noise(rnd, text)
             if rnd.random() < 0.12:
-                check_text(text, acc, api, start=start, kind='valid')
+                check_text(text, acc, api, start=start, kind='valid', must_accept=True)
             else:
                 t2, kind, must, roa = mutate(rnd, text)
                 check_text(t2, acc, api, start=start, must_reject=must, reject_or_account=roa, kind=kind)
@@ -589,4 +605,4 @@ def replay(spec, acc):
     if 'text' not in case:
         acc.note_inconclusive('finding-level replay entry')
         return
-    check_text(case['text'], acc, _api(), start=case.get('start', 1), must_reject=case.get('must_reject', False), kind=case.get('kind', 'replay'))
+    check_text(case['text'], acc, _api(), start=case.get('start', 1), must_reject=case.get('must_reject', False), kind=case.get('kind', 'replay'), must_accept=case.get('kind') == 'valid')
